@@ -61,9 +61,14 @@ def count_of(obj, kind):
     return len(obj.values) if kind == "values" else len(obj.properties) if kind == "properties" else len(obj.sections)
 
 
-def observe(obj, kind):
+def observe(obj, kind, reused=None, sibs=True):
+    """reused: a Validation object made before the operation; its report() has to show the current state"""
     warn = "raised"
     try:
+        if reused is not None:
+            reused.report()
+            errs = [e for e in reused.errors if e.validation_id == ISSUE[kind] and e.obj is obj]
+            r = len(errs) > 0
         errs = [e for e in Validation(obj).errors if e.validation_id == ISSUE[kind] and e.obj is obj]
         warn = len(errs) > 0
         if any(e.rank != "warning" for e in errs):
@@ -72,18 +77,31 @@ def observe(obj, kind):
             warn = "duplicate"
     except Exception as e:
         warn = "raised:" + type(e).__name__
-    return {"card": py2card(getattr(obj, ATTR[kind])), "count": count_of(obj, kind), "warn": warn}
+    rw = warn
+    if reused is not None and warn in (True, False):
+        rw = r
+    return {"card": py2card(getattr(obj, ATTR[kind])), "count": count_of(obj, kind), "warn": warn, "rwarn": rw, "sibs": sibs}
 
 
 def saveload(obj, kind, fmt):
+    """the object between an earlier sibling that has cardinalities of its own and later ones that have none / other ones"""
     doc = odml.Document()
     root = odml.Section(name="root", type="t")
     doc.append(root)
+    root.append(odml.Section(name="before", type="t", sec_cardinality=(1, 2), prop_cardinality=(1, None)))
+    root.append(odml.Property(name="pbefore", values=[1], val_cardinality=(1, 2)))
     root.append(obj)
+    root.append(odml.Section(name="after", type="t"))
+    root.append(odml.Property(name="pafter", values=[1, 2, 3]))
+    root.append(odml.Section(name="last", type="t", sec_cardinality=(None, 7)))
     text = ODMLWriter(fmt).to_string(doc)
     doc2 = ODMLReader(fmt, show_warnings=False).from_string(text)
     r2 = doc2.sections["root"]
-    return r2.properties["p"] if kind == "values" else r2.sections["s"]
+    sibs = (r2.sections["before"].sec_cardinality == (1, 2) and r2.sections["before"].prop_cardinality == (1, None)
+            and r2.properties["pbefore"].val_cardinality == (1, 2) and r2.sections["after"].sec_cardinality is None
+            and r2.sections["after"].prop_cardinality is None and r2.properties["pafter"].val_cardinality is None
+            and r2.sections["last"].sec_cardinality == (None, 7) and r2.sections["last"].prop_cardinality is None)
+    return (r2.properties["p"] if kind == "values" else r2.sections["s"]), sibs
 
 
 def replay(t):
@@ -93,9 +111,11 @@ def replay(t):
     pre = observe(obj, kind)
     if pre["card"] != s["card"] or pre["count"] != s["count"]:
         raise C.MachineryError("could not build %r: %r" % (s, pre))
-    out, exc, res = "ok", "none", obj
+    out, exc, res, reused, sibs = "ok", "none", obj, None, True
     try:
         n = op["name"]
+        if n in ("add", "remove", "set", "setminmax"):
+            reused = Validation(obj)
         if n == "set":
             setattr(obj, ATTR[kind], conc_input(op["x"]))
         elif n == "setminmax":
@@ -115,12 +135,12 @@ def replay(t):
             else:
                 obj.remove(obj.sections[-1])
         elif n == "saveload":
-            res = saveload(obj, kind, op["fmt"])
+            res, sibs = saveload(obj, kind, op["fmt"])
         else:
             raise C.MachineryError("unknown op " + n)
     except C.MachineryError:
         raise
     except Exception as e:
         out, exc = "raised", type(e).__name__
-    post = observe(res, kind)
+    post = observe(res, kind, reused, sibs)
     yield {"fam": "card", "src": "model", "kind": kind, "op": op, "out": out, "exc": exc, "pre": pre, "post": post}
